@@ -281,7 +281,7 @@ def toplevel_default(rep: C.Report) -> None:
             ob.verdict, ob.detail = C.NOT_ENCODABLE, "no path through the kind == 'A' branch calls expand_args"
             return
         ob.samples.append({"query": "iteration through the parameter-reference branch calls expand_args but never expand_recurse", "violating_exits": bad})
-        if not bad:
+        if not bad and not C.distrust():
             ob.verdict = C.DISCHARGED
             return
         from wikitextprocessor import Wtp
@@ -324,7 +324,7 @@ def missing_template_link(rep: C.Report) -> None:
                         if consts == ["[[:", ":", "]]"] and len(exprs) == 2 and "name" in exprs[0] and exprs[1] == "name":
                             ok = True
         ob.conditions = ob.queries = ob.paths = 1
-        if ok:
+        if ok and not C.distrust():
             ob.verdict = C.DISCHARGED
             ob.confirmed_conditions = 1
             return
@@ -393,7 +393,7 @@ def frame_discipline(rep: C.Report) -> None:
             problems.append("the body is not expanded in a frame that carries the call's argument map")
         ob.conditions = ob.queries = ob.paths = n_calls + len(ea) + len(body_calls)
         ob.samples.append({"frame_parameter": frame_param, "argument_maps": sorted(maps), "argument_expansions": n_calls, "problems": problems})
-        if not problems:
+        if not problems and not C.distrust():
             ob.verdict = C.DISCHARGED
             ob.confirmed_conditions = ob.conditions
             return
@@ -551,7 +551,7 @@ def template_body_pipeline(rep: C.Report, pid: str = "C04") -> None:
                 problems.append((f"early return at core.py:{line} skips a pass", wit, None))
             else:
                 ob.detail += f"early return at line {line}: guard not translatable; "
-        if not problems:
+        if not problems and not C.distrust():
             ob.verdict = C.DISCHARGED if not ob.detail else C.INCONCLUSIVE
             return
         # replay: the text as a template body
